@@ -9,27 +9,38 @@ for d in sorted(glob.glob(os.path.join(V,'seeded','*'))):
     m=json.load(open(mp)); c=m.get('confirmed_by_lead',{})
     name=os.path.basename(d)
     res=c.get('checks_against_patch','')
-    caught=[]
-    for part in re.findall(r'(C\d+):rc=(\d+)\[([^\]]*(?:\][^\]]*)*?)\s*\](?=\s|$)', res+' '):
-        pass
-    checks=re.findall(r'(C\d+):rc=(\d+)', res)
+    first=re.findall(r'(C\d+):rc=(\d+)', res)
     classes=sorted(set(re.findall(r'\[(C\d+-[A-Za-z0-9_.-]+)\]', res)))
-    verdict='; '.join('%s %s'%(cid,'exit 1' if rc=='1' else ('exit 0 (missed)' if rc=='0' else 'exit '+rc)) for cid,rc in checks)
+    checks=first
+    now=m.get('checks_now',{}).get('results')
+    if now and 'error' not in now:
+        # result with the machinery as committed (reseed.py); the first result is kept in meta.json
+        merged=dict(first)
+        cl=set()
+        for cid,rr in now.items():
+            merged[cid]=str(rr['rc']); cl.update(rr.get('classes',{}).keys())
+        for cid,rc in first:
+            if cid not in now and rc=='1': cl.update(x for x in classes if x.startswith(cid+'-'))
+        checks=sorted(merged.items()); classes=sorted(cl)
+    def word(rc): return 'exit 1' if rc=='1' else ('exit 0 (missed)' if rc=='0' else 'exit '+rc)
+    verdict='; '.join('%s %s'%(cid,word(rc)) for cid,rc in checks)
+    firstv='; '.join('%s %s'%(cid,word(rc)) for cid,rc in first)
+    if firstv!=verdict: verdict+=' (first run: '+firstv+')'
     summ=m.get('summary','').replace('|','\\|').replace('\n',' ')
     needs=m.get('needs_to_manifest','').replace('|','\\|').replace('\n',' ')
     if len(summ)>260: summ=summ[:257]+'...'
     if len(needs)>200: needs=needs[:197]+'...'
     rows.append("| `%s` | %s | %s | %s | %s |"%(name,summ,needs,verdict,', '.join('`%s`'%x for x in classes[:4])))
-sm=[]
-p=os.path.join(V,'out','mutcheck.log')
+sm=[]; latest={}
+p=os.path.join(V,'selfmut','results.log')
 if os.path.exists(p):
     for l in open(p):
-        m=re.match(r'\S+ (C\d+) (\S+)\.diff rc=(\d+) (\d+) violations; classes:(.*)',l)
-        if m: sm.append("| `selfmut/%s.diff` | %s | exit %s | %s |"%(m.group(2),m.group(1),m.group(3),', '.join('`%s`'%x for x in sorted(set(re.findall(r'\[(C\d+-[A-Za-z0-9_.-]+)\]',m.group(5))))[:4])))
+        m=re.match(r'\S+ (C\d+) selfmut/(\S+)\.diff rc=(\d+) (\d+) violations; classes:(.*)',l)
+        if m: latest[m.group(2)]=("| `selfmut/%s.diff` | %s | exit %s | %s |"%(m.group(2),m.group(1),m.group(3),', '.join('`%s`'%x for x in sorted(set(re.findall(r'\[(C\d+-[A-Za-z0-9_.-]+)\]',m.group(5))))[:4])))
 out=["### 7.5 Which checks catch which seeded changes\n",
-"Independent sub-agents were given only the text of one property and a scratch worktree (nothing from /verif) and asked for two realistic changes each that break the property, compile, pass the existing tests and need something specific to manifest, with a demonstration. Each was confirmed by `seedcheck.sh` in a fresh scratch worktree (demonstration passes on the unchanged tree, fails with the patch; the existing tests named in meta.json pass with the patch), then the quick check of that property was run against the patched worktree (`VERIF_REPO=<worktree> ./check <ID> quick`). Kept changes are in `/verif/seeded/<ID>-m<k>/` (patch.diff, demo_test.go, meta.json with what was run). The table shows the result with the machinery as committed; where a change was first missed, the strengthening is described in §7.6.\n",
+"Independent sub-agents were given only the text of one property and a scratch worktree (nothing from /verif) and asked for two realistic changes each that break the property, compile, pass the existing tests and need something specific to manifest, with a demonstration. Each was confirmed by `seedcheck.sh` in a fresh scratch worktree (demonstration passes on the unchanged tree, fails with the patch; the existing tests named in meta.json pass with the patch), then the quick check of that property was run against the patched worktree (`VERIF_REPO=<worktree> ./check <ID> quick`). Rounds: `<ID>-m<k>` (round 1), `<ID>-r2m<k>`, `<ID>-r3m<k>` (later rounds; the agents were additionally given one-line summaries of the earlier changes for their property so as not to repeat them). Kept changes are in `/verif/seeded/<name>/` (patch.diff, demo_test.go, meta.json with what was run). The table shows the result with the machinery as committed; where a change was first missed, the strengthening is described in §7.6.\n",
 "| seeded change | what it does | needs to manifest | quick check result | classes that fired |","|---|---|---|---|---|"]+rows
-out+=["","Patches written by the lead or by harness builders to validate monitors (`selfmut/`, applied with `mutcheck.sh`; builders' own mutation tables are in their harness reports summarised in §7.7):\n","| patch | property | result | classes |","|---|---|---|---|"]+sm+[""]
+out+=["","Patches written by the lead or by harness builders to validate monitors (`selfmut/`, applied with `mutcheck.sh`; builders' own mutation tables are in their harness reports summarised in §7.7):\n","| patch | property | result | classes |","|---|---|---|---|"]+[latest[k] for k in sorted(latest)]+[""]
 p=os.path.join(V,'DESIGN.md'); s=open(p).read()
 if "<!-- SEEDED-BEGIN -->" not in s:
     marker="## 5. What this family cannot decide here (stated limits)"
@@ -37,4 +48,4 @@ if "<!-- SEEDED-BEGIN -->" not in s:
 a=s.index("<!-- SEEDED-BEGIN -->")+len("<!-- SEEDED-BEGIN -->\n"); b=s.index("<!-- SEEDED-END -->")
 s=s[:a]+"\n".join(out)+"\n"+s[b:]
 open(p,'w').write(s)
-print(len(rows),'seeded rows',len(sm),'selfmut rows')
+print(len(rows),'seeded rows',len(latest),'selfmut rows')
